@@ -36,11 +36,28 @@ def coq_eval(expr, imports='CMP.Inventory CMPGen.GenInventory'):
 def all_lines(c, lines):
     return list(lines)
 
+def tecmp_heavy(rng, n):
+    """cases that hammer the static TECMP decoder with bus-status / CAN / LIN / capture-module frames of case-specific contents"""
+    out = []
+    for i in range(n):
+        r = rng.fork('th%d' % i)
+        fr = []
+        for _ in range(60):
+            k = r.below(4)
+            if k <= 1:
+                ne = r.range(2, 10)
+                pl = r.bytes(12) + b''.join(be(i * 1000 + j, 4) + be(r.next() & 0xFFFFFFFF, 4) + be(i, 4) for j in range(ne))
+                fr.append(tecmp_hdr(i & 255, 2, 0, len(pl), ifid=i, ts=r.next()) + pl)
+            else:
+                fr.append(r.choice(gen_dec.tecmp_samples(r)))
+        out.append(Case('th%d' % i, [gen_dec.feed_line(1, f) for f in fr], dict(frames=fr)))
+    return out
+
 def run_c19(res, rng):
     if res.violations:
         res.cov['mutable_static_objects'] = coq_eval('mutable_statics')
     n = 240 if res.tier == 'quick' else 3000
-    cases = mixed_workload(rng, n)
+    cases = mixed_workload(rng, n) + tecmp_heavy(rng, 64 if res.tier == 'quick' else 600)
     model = run_model(cases)
     ref = run_harness(cases, variant='asan', tag='ref')
     thr = 8 if res.tier == 'quick' else 16
@@ -72,24 +89,47 @@ def run_c19(res, rng):
                        'run once sequentially and once with the cases distributed over 8 (quick) / 16 (thorough) threads without synchronisation (ASan build; TSan build in the thorough tier); per-case transcripts must be identical and equal to the model\'s. non-trivial = distinct cases')
     res.cov['samples'] = [dict(case=c.cid, script=[l[:120] for l in c.lines[:3]]) for c in cases[:3]]
 
+def stray_cases(rng, n):
+    out = []
+    for i in range(n):
+        r = rng.fork('st%d' % i)
+        fr = []
+        for _ in range(r.range(2, 6)):
+            e = (r.below(65536), r.below(4))
+            ch = gen_dec.chain_frames(r, e, r.choice([0, 1, 2, r.below(65536)]), r.range(2, 4), mt=r.choice([1, 3]), ver=r.choice([1, 1, 2, 3]))
+            k = r.below(4)
+            if k == 0: fr += ch                      # complete chain
+            elif k == 1: fr += ch[:1]                # aborted after the first segment
+            elif k == 2: fr += ch[1:]                # stray continuation / last segments, no chain open
+            else: fr += ch[:1] + gen_dec.chain_frames(r, (r.below(65536), r.below(4)), 0, 2, mt=1, ver=1)[1:]
+        out.append(Case('stray%d' % i, [gen_dec.feed_line(1, f) for f in fr], dict(frames=fr)))
+    return out
+
 def run_c20(res, rng):
     if res.violations:
         res.cov['bad_allocation_forms'] = coq_eval('bad_allocs')
-    n = 300 if res.tier == 'quick' else 4000
-    cases = mixed_workload(rng, n)
+        res.cov['members_without_initialiser'] = coq_eval('bad_members', 'CMP.Inventory CMPGen.GenInventory CMPGen.GenLayout')
+    n = 240 if res.tier == 'quick' else 4000
+    cases = mixed_workload(rng, n) + stray_cases(rng, 120 if res.tier == 'quick' else 2000)
     model = run_model(cases)
     outs = []
-    for fill in (0xA5, 0x5A):
-        outs.append(run_harness(cases, variant='asan', env={'VERIF_FILL': str(fill), 'MALLOC_PERTURB_': str(fill ^ 0xFF)}, tag='f%d' % fill))
+    # fresh operator-new blocks are pre-filled with a repeating pattern: uniform bytes and patterns that look like plausible field values
+    # (segment types 4/8/12, versions, message types, small counters), so that a decision taken on an indeterminate member flips
+    fills = ['a5', '5a', '04010100', '08010300', '0c01ff00', '00', '01', 'ff04010104030108'] if res.tier == 'quick' else         ['a5', '5a', '00', '01', 'ff', '04', '08', '0c', '04010100', '08010300', '0c01ff00', '04030300', '0401', '0801', 'ff04010104030108', '0004000800010003']
+    for fill in fills:
+        outs.append(run_harness(cases, variant='asan', env={'VERIF_FILL': fill, 'MALLOC_PERTURB_': str(int(fill[:2], 16) ^ 0xFF)}, tag='f' + fill))
     nbad = 0
     for c in cases:
-        a, b = outs[0].get(c.cid, ['MISSING']), outs[1].get(c.cid, ['MISSING'])
-        if a != b:
-            nbad += 1
-            if nbad <= 2:
-                k = next((i for i, (x, y) in enumerate(zip(a, b)) if x != y), min(len(a), len(b)))
-                res.violation('output depends on prior heap contents: case %s observation %d is "%s" with fill 0xA5 and "%s" with fill 0x5A' % (
-                    c.cid, k, (a[k] if k < len(a) else '<end>')[:200], (b[k] if k < len(b) else '<end>')[:200]), c.text(), True, 'judge')
+        a = outs[0].get(c.cid, ['MISSING'])
+        for fi, o in enumerate(outs[1:]):
+            b = o.get(c.cid, ['MISSING'])
+            if a != b:
+                nbad += 1
+                if nbad <= 2:
+                    k = next((i for i, (x, y) in enumerate(zip(a, b)) if x != y), min(len(a), len(b)))
+                    res.violation('output depends on prior heap contents: case %s observation %d is "%s" with fill pattern %s and "%s" with fill pattern %s' % (
+                        c.cid, k, (a[k] if k < len(a) else '<end>')[:200], fills[0], (b[k] if k < len(b) else '<end>')[:200], fills[fi + 1]), c.text(), True, 'judge')
+                break
     if res.tier == 'thorough':
         # definedness checker on the unsanitised build
         sub = cases[:400]
@@ -107,11 +147,12 @@ def run_c20(res, rng):
     if ndiff and not nbad:
         c = next(c for c in cases if outs[0].get(c.cid) != model.get(c.cid))
         res.violation('correspondence model/implementation broken on %d workload case(s), first %s; outputs do not depend on the fill pattern' % (ndiff, c.cid), c.text(), False, 'correspondence')
-    res.cov['evaluations'] = 2 * len(cases)
+    res.cov['evaluations'] = len(fills) * len(cases)
+    res.cov['fill_patterns'] = fills
     res.cov['distinct_nontrivial'] = len(set(tuple(c.lines) for c in cases))
     res.cov['correspondence_diffs'] = ndiff
     res.cov['judge_failures'] = nbad
     res.cov['traces_validated_against_impl'] = len(cases) - ndiff
-    res.cov['rule'] = ('the mixed workload of C19 (frames padded and unpadded, control/status/vendor messages, reassembly, TECMP conversion, builders) run twice with every operator-new block pre-filled with 0xA5 resp. 0x5A (and MALLOC_PERTURB_); '
+    res.cov['rule'] = ('the mixed workload of C19 (frames padded and unpadded, control/status/vendor messages, reassembly, TECMP conversion, builders) run once per fill pattern (8 quick / 16 thorough: uniform bytes and repeating patterns resembling segment types, versions, message types), every operator-new block being pre-filled with the pattern (and MALLOC_PERTURB_); '
                        'all observations (every frame byte, every header field and payload byte of every packet, every built payload) must be bit-identical across the two runs and equal to the heap-free model; thorough: valgrind memcheck on the unsanitised build. non-trivial = distinct cases')
     res.cov['samples'] = [dict(case=c.cid, script=[l[:120] for l in c.lines[:3]]) for c in cases[:3]]
